@@ -198,6 +198,22 @@ pub fn main(args: &[String]) {
                 let sc: Vec<i64> = (0..4u8).map(|d| evaluate::score(&mut b2, &mut gs, t, d) as i64).collect();
                 (sc, evaluate::board_material_score(&b2) as i64)
             });
+            if pos.rights == 0 {
+                let mut mir = mirror(&pos);
+                mir.ep = if pos.ep == 0 { 0 } else { 65 - pos.ep };
+                let rm = guarded(|| {
+                    let mut b1 = pos.setup();
+                    let mut b2 = mir.setup();
+                    let (t1, t2) = (b1.turn(), b2.turn());
+                    let a: Vec<i64> = (0..4u8).map(|d| evaluate::score(&mut b1, &mut gs, t1, d) as i64).collect();
+                    let b: Vec<i64> = (0..4u8).map(|d| evaluate::score(&mut b2, &mut gs, t2, d) as i64).collect();
+                    (a, b)
+                });
+                if let Ok((a, b)) = rm {
+                    writeln!(file, "{}", json!({"t": "scoremirror", "pos": pos.to_json(), "mir": mir.to_json(), "a": a, "b": b})).unwrap();
+                    n += 1;
+                }
+            }
             match r {
                 Ok((sc, st)) => writeln!(file, "{}", json!({"t": "score", "pos": pos.to_json(), "hm": 0, "scores": sc, "static": st, "mm": mm})).unwrap(),
                 Err(p) => writeln!(file, "{}", json!({"t": "panic-eval", "pos": pos.to_json(), "where": p})).unwrap(),
